@@ -25,6 +25,7 @@ import (
 	metav1 "k8s.io/apimachinery/pkg/apis/meta/v1"
 	"k8s.io/apimachinery/pkg/runtime"
 	"k8s.io/apimachinery/pkg/runtime/schema"
+	"k8s.io/apimachinery/pkg/runtime/serializer"
 	utilrand "k8s.io/apimachinery/pkg/util/rand"
 	"k8s.io/apimachinery/pkg/watch"
 	"k8s.io/client-go/informers"
@@ -151,11 +152,15 @@ func must(err error) {
 }
 
 var sharedScheme = NewScheme()
+var sharedDecoder = serializer.NewCodecFactory(sharedScheme).UniversalDecoder()
 
 // NewWorld builds a store holding objs (controller-runtime objects) and claims.
 func NewWorld(objs []client.Object, claims []*resourceapi.ResourceClaim) *World {
 	w := &World{Scheme: sharedScheme, BindOK: map[string]int{}, BindRejected: map[string]int{}, BindTarget: map[string][]string{}}
+	// plain object tracker: the default field-managed tracker (server-side-apply emulation, which
+	// the binder never uses) costs 2-7 ms per write.
 	b := fake.NewClientBuilder().WithScheme(w.Scheme).
+		WithObjectTracker(k8stesting.NewObjectTracker(w.Scheme, sharedDecoder)).
 		// the two indexes cmd/binder/app/app.go registers
 		WithIndex(&v1.Pod{}, "spec.nodeName", func(o client.Object) []string {
 			n := o.(*v1.Pod).Spec.NodeName
@@ -597,4 +602,39 @@ func sortedKeys[V any](m map[string]V) []string {
 	}
 	sort.Strings(ks)
 	return ks
+}
+
+// Clone copies the store (objects incl. resource versions and UIDs) into a new World with an empty
+// call log. Used by the explicit-state history search to branch from a quiescent state.
+func (w *World) Clone() *World {
+	var objs []client.Object
+	pods := &v1.PodList{}
+	must(w.Raw.List(bg, pods))
+	for i := range pods.Items {
+		objs = append(objs, &pods.Items[i])
+	}
+	nodes := &v1.NodeList{}
+	must(w.Raw.List(bg, nodes))
+	for i := range nodes.Items {
+		objs = append(objs, &nodes.Items[i])
+	}
+	cms := &v1.ConfigMapList{}
+	must(w.Raw.List(bg, cms))
+	for i := range cms.Items {
+		objs = append(objs, &cms.Items[i])
+	}
+	brs := &schedulingv1alpha2.BindRequestList{}
+	must(w.Raw.List(bg, brs))
+	for i := range brs.Items {
+		objs = append(objs, &brs.Items[i])
+	}
+	var claims []*resourceapi.ResourceClaim
+	if cl, err := w.KC.Tracker().List(resourceapi.SchemeGroupVersion.WithResource("resourceclaims"), resourceapi.SchemeGroupVersion.WithKind("ResourceClaim"), ""); err == nil {
+		if l, ok := cl.(*resourceapi.ResourceClaimList); ok {
+			for i := range l.Items {
+				claims = append(claims, &l.Items[i])
+			}
+		}
+	}
+	return NewWorld(objs, claims)
 }
